@@ -310,4 +310,8 @@ func init() {
 		return VPtr{T: p}, pc
 	})
 	externWrites["github.com/fiorix/go-diameter/diam/sm.New"] = []string{"next"}
+	regExtern("github.com/fiorix/go-diameter/diam.NewAVP", "diam.NewAVP: a new non-nil AVP (it returns the address of a composite literal)", func(ex *Exec, fr *Frame, st *State, pc *Term, fn *ssa.Function, args []Value, pos token.Pos) (Value, *Term) {
+		return VPtr{T: ex.alloc(st, pc)}, pc
+	})
+	externWrites["github.com/fiorix/go-diameter/diam.NewAVP"] = []string{"next"}
 }
